@@ -7,10 +7,13 @@ pub mod c03;
 pub mod c04;
 pub mod c05;
 pub mod c06;
+pub mod c08;
 pub mod c09;
+pub mod c10;
 pub mod c12;
 pub mod c13;
 pub mod c14;
+pub mod c15;
 pub mod c16;
 pub mod c17;
 pub mod c18;
@@ -31,7 +34,7 @@ pub struct Prop {
 }
 
 pub fn all() -> Vec<Prop> {
-    vec![c01::prop(), c02::prop(), c03::prop(), c04::prop(), c05::prop(), c06::prop(), c09::prop(), c12::prop(), c13::prop(), c14::prop(), c16::prop(), c17::prop(), c18::prop(), c19::prop()]
+    vec![c01::prop(), c02::prop(), c03::prop(), c04::prop(), c05::prop(), c06::prop(), c08::prop(), c09::prop(), c10::prop(), c12::prop(), c13::prop(), c14::prop(), c15::prop(), c16::prop(), c17::prop(), c18::prop(), c19::prop()]
 }
 
 pub fn get(id: &str) -> Option<Prop> {
